@@ -73,6 +73,8 @@ type Model struct {
 	// Uncertain lists ticks that fell within ExpiryMargin of a session's expiry boundary (the model cannot tell
 	// whether the session was discarded; checks do not assert such cases)
 	Uncertain []int
+	// per step, after the step: number of subscriptions held by all sessions of the model, and connected clients
+	SubsAfter, ConnectedAfter []int
 }
 
 // ExpiryMargin is the distance (seconds) a housekeeping tick must keep from an expiry boundary for the model to
@@ -279,6 +281,12 @@ func Analyze(r *Run) *Model {
 				}
 			}
 		}
+		n := 0
+		for _, se := range m.Sessions {
+			n += len(se.Subs)
+		}
+		m.SubsAfter = append(m.SubsAfter, n)
+		m.ConnectedAfter = append(m.ConnectedAfter, len(m.Connected))
 	}
 	return m
 }
